@@ -240,7 +240,7 @@ func renderLog(ms []storage.Message) string {
 func c16(tier string, args []string) int {
 	r := newRun("C16", tier, "exploration")
 	r.Assume = []string{
-		"writers are goroutines with separate FileStorage handles on one data file and one lock file; flock(2) is per open file description and fslock opens its own descriptor per handle, so this exercises the same kernel path as separate processes (OS-process scheduling itself is not controlled)",
+		"writers are goroutines with separate FileStorage handles on one data file and one lock file, and - in the 'processes:' scenarios - separate OS processes (children of the check, one handle each) whose hooked operations are scheduling points of the scheduler in the parent: the exclusion between them is the kernel's flock(2) on the real lock file",
 		"scheduling points: flock acquire / release, seek, the first read after a seek (one 'count the lines' or 'scan the file' step), write; a torn read of a line being written is below this granularity",
 		"size alphabet around the line counter's 64 KiB token limit and the reader's 1 MiB limit instead of all sizes",
 	}
@@ -296,13 +296,20 @@ func c16(tier string, args []string) int {
 		}
 		r.Sample(map[string]interface{}{"scenario": sc.Name, "preemption_bound": sc.Bound, "schedules": ex.Executions, "distinct_final_logs": len(ex.Outcomes), "some_final_logs": keys})
 	}
+	// ---- the same with every writer / reader a separate OS process (c16proc.go)
+	pexecs, pdistinct := c16Processes(r, tier)
+	execs += pexecs
+	distinct += pdistinct
+	r.Set("schedules_of_os_processes", pexecs)
+	// ---- histories of one long-lived handle with ignore lists, against a reference model (c16hist.go)
+	hist := c16Histories(r, tier)
 	// ---- sizes: every sequence of <= 3 messages over the size alphabet, single writer
 	seqs := c16Sizes(r, tier)
-	r.Set("evaluations", execs+seqs)
+	r.Set("evaluations", execs+seqs+hist)
 	r.Set("schedules_explored", execs)
 	r.Set("size_sequences", seqs)
 	r.Set("distinct_nontrivial", distinct+seqs)
-	r.Set("rule", "pre-emption-bounded exhaustive DFS over the schedules of writer / reader threads on the real FileStorage (bound in each sample; unbounded for 2 writers x 1 send); every sequence of up to 3 messages over a size alphabet with a single writer; oracle on the final log read by a fresh handle: offset = position, every sent message exactly once, earlier reads are stable suffixes; distinct = distinct final logs + size sequences")
+	r.Set("rule", "pre-emption-bounded exhaustive DFS over the schedules of writer / reader threads on the real FileStorage (bound in each sample; unbounded for 2 writers x 1 send); every sequence of up to 3 messages over a size alphabet with a single writer; oracle on the final log read by a fresh handle: offset = position, every sent message exactly once, earlier reads are stable suffixes; distinct = distinct final logs + size sequences; handle histories: every sequence of appends / reads / ignore / unignore within the budget on a long-lived handle against a list-and-two-sets reference model, all read offsets asked after every history")
 	return finish(r)
 }
 
